@@ -29,6 +29,7 @@ import (
 	"sort"
 	"strings"
 
+	"go/ast"
 	"golang.org/x/tools/go/callgraph"
 	"golang.org/x/tools/go/packages"
 	"golang.org/x/tools/go/ssa"
@@ -139,6 +140,10 @@ func errFlow(prog *ssa.Program, cg *callgraph.Graph, byPath map[string]*packages
 	if p := byPath[mod+"/pkg/sql/parser"]; p != nil {
 		if c, ok := p.Types.Scope().Lookup("contextPollInterval").(*types.Const); ok {
 			out.Limits["contextPollInterval"] = c.Val().ExactString()
+		} else if v := pollIntervalByRole(p); v != "" {
+			// the constant was renamed or inlined: the interval is the constant modulus (or mask+1) the cursor's
+			// advance method tests its position against before it polls
+			out.Limits["contextPollInterval"] = v
 		}
 	}
 	for short, names := range map[string][]string{"pkg/sql/tokenizer": {"MaxInputSize", "MaxTokens"}, "pkg/sql/parser": {"MaxRecursionDepth"}} {
@@ -1733,4 +1738,48 @@ func (s *efState) finish(out *EFOut) {
 		out.Notes = append(out.Notes, nte)
 	}
 	sort.Strings(out.Notes)
+}
+
+// pollIntervalByRole finds, in the methods of *Parser that call a context's Err(), a test `pos % K == 0` or
+// `pos & (K-1) == 0` with constant K and returns K (as decimal text), or "".
+func pollIntervalByRole(p *packages.Package) string {
+	res := ""
+	for _, f := range p.Syntax {
+		for _, d := range f.Decls {
+			fd, ok := d.(*ast.FuncDecl)
+			if !ok || fd.Body == nil || fd.Recv == nil {
+				continue
+			}
+			ast.Inspect(fd.Body, func(n ast.Node) bool {
+				be, ok := n.(*ast.BinaryExpr)
+				if !ok || (be.Op != token.REM && be.Op != token.AND) {
+					return true
+				}
+				tv, ok := p.TypesInfo.Types[be.Y]
+				if !ok || tv.Value == nil || tv.Value.Kind() != constant.Int {
+					return true
+				}
+				// the left operand mentions a field named like a cursor position of the receiver
+				left := ""
+				ast.Inspect(be.X, func(m ast.Node) bool {
+					if se, ok := m.(*ast.SelectorExpr); ok {
+						left = se.Sel.Name
+					}
+					return true
+				})
+				if !strings.Contains(strings.ToLower(left), "pos") {
+					return true
+				}
+				k, _ := constant.Int64Val(tv.Value)
+				if be.Op == token.AND {
+					k++
+				}
+				if k > 1 && res == "" {
+					res = fmt.Sprintf("%d", k)
+				}
+				return true
+			})
+		}
+	}
+	return res
 }
